@@ -57,13 +57,15 @@ def _typed_job(job):
     import warnings
     warnings.simplefilter("ignore")
     import sharepoint2text
-    kinds, fmt = job
+    kinds, fmt, dup = job
     row = [TYPED_CELL[k] for k in kinds]
     if fmt == "ods":
         row = [None if (c and c[0] in ("e", "f")) else c for c in row]
     if fmt == "xls":      # the BIFF writer has no date formats / formulas
         row = [None if (c and c[0] in ("d", "date", "t", "f")) else c for c in row]
-    book = {"kind": "book", "sheets": [{"name": "T", "rows": [[["s", 1], ["s", 2]], row]}]}
+    # header row: two different token strings, or (dup) the same literal text twice ("Amount" | "Amount")
+    header = [["str", "Amount"], ["str", "Amount"]] if dup else [["s", 1], ["s", 2]]
+    book = {"kind": "book", "sheets": [{"name": "T", "rows": [header, row]}]}
     try:
         r = next(getattr(sharepoint2text, EXTRACTOR[fmt])(io.BytesIO(render(book, fmt)), "t." + fmt))
         tables = [t.get_table() for t in r.iterate_tables()]
@@ -120,15 +122,17 @@ def typed_values(ctx):
                    for k in kinds]
             if all(k == "empty" for k in eff):
                 continue        # nothing but the header row would be written
-            jobs.append((kinds, fmt, eff))
+            jobs.append((kinds, fmt, eff, False))
+            if fmt != "xls":        # equal header texts (xls: rows are dicts keyed by header text, KF-C13-07)
+                jobs.append((kinds, fmt, eff, True))
     with ProcessPoolExecutor(16) as ex:
-        obs = list(ex.map(_typed_job, [(k, f) for k, f, _ in jobs]))
+        obs = list(ex.map(_typed_job, [(k, f, d) for k, f, _, d in jobs]))
     traces = []
-    for (kinds, fmt, eff), o in zip(jobs, obs):
+    for (kinds, fmt, eff, dup), o in zip(jobs, obs):
         if "exc" in o:
             ctx.v.violation(what=f"{fmt}: typed row {kinds} could not be read back: {o['exc']}", case={"kinds": kinds, "fmt": fmt})
             continue
-        traces.append({"id": f"typed:{fmt}:{'/'.join(kinds)}", "hdr": {"fmt": fmt, "doc": {"units": [], "header": [], "footer": []}},
+        traces.append({"id": f"typed{'-duphdr' if dup else ''}:{fmt}:{'/'.join(kinds)}", "hdr": {"fmt": fmt, "doc": {"units": [], "header": [], "footer": []}},
                        "raw": o["raw"], "ev": [{"a": "Typed", "kinds": eff, "row": o["row"]}]})
     # header-less grids whose last column may hold only falsy values (ODS keeps every row as data)
     grids = gen_units(ctx, "typedgrid", 1)
